@@ -86,11 +86,49 @@ def audit(obls, failed_modules):
     status = {}
     lines = []
     mods = []
+    # a module that (transitively) imports a module that failed was not rebuilt: its old object file must not be
+    # loaded (it talks about definitions that no longer exist in that form)
+    imports_of = {}
+
+    def imports(mod):
+        if mod not in imports_of:
+            path = os.path.join(LEAN, mod.replace('.', '/') + '.lean')
+            res = []
+            try:
+                for line in open(path, encoding='utf-8'):
+                    m = re.match(r'^import\s+(\S+)', line)
+                    if m:
+                        res.append(m.group(1))
+                    elif line.strip() and not line.startswith(('import', '--', '/-')) and res:
+                        break
+            except OSError:
+                pass
+            imports_of[mod] = res
+        return imports_of[mod]
+    blocked = {}
+
+    def blocker(mod, depth=0):
+        if mod in blocked:
+            return blocked[mod]
+        blocked[mod] = None
+        if mod in failed:
+            blocked[mod] = mod
+            return mod
+        if mod.split('.')[0] in ('Gen', 'PyRt', 'Lemmas', 'Spec', 'Props', 'Driver') or mod in ('PyRt', 'Gen', 'Props', 'Lemmas', 'Spec'):
+            for i in imports(mod):
+                b = blocker(i, depth + 1)
+                if b:
+                    blocked[mod] = b
+                    return b
+        return None
+    sys.setrecursionlimit(10000)
     for mod, names in sorted(by_mod.items()):
         olean = os.path.join(LEAN, '.lake', 'build', 'lib', 'lean', mod.replace('.', '/') + '.olean')
-        if mod in failed or not os.path.exists(olean):
+        b = blocker(mod)
+        if b or not os.path.exists(olean):
             for n in names:
-                status[n] = {'status': 'failed', 'why': 'module %s did not build' % mod}
+                status[n] = {'status': 'failed', 'why': ('module %s did not build' % mod) if b in (mod, None) else
+                             'module %s was not rebuilt: it imports %s, which did not build' % (mod, b)}
             continue
         mods.append(mod)
         for n in sorted(set(names)):
@@ -203,7 +241,12 @@ def prepare(verbose=False):
         except (OSError, ValueError):
             res['unmodelled'] = []
             res['translated'] = 0
-        res['audit'] = audit(all_obligations(), failed)
+        if rc4 != 0 and not failed:
+            # the build failed but no failing module could be identified: trust nothing that was built before
+            res['audit'] = {t['name']: {'status': 'failed', 'why': 'lake build failed without naming a module: ' + out4[-300:]}
+                            for d in all_obligations().values() for t in d.get('theorems', [])}
+        else:
+            res['audit'] = audit(all_obligations(), failed)
         res['hygiene'] = hygiene()
         res['wall_s'] = round(time.time() - t0, 1)
         common.write_json(cache, res)
